@@ -13,4 +13,5 @@ def run(repo, res, tier):
         "behave.")
     hookrules.rule_h1(repo, res)
     hookrules.rule_h2(repo, res)
+    hookrules.rule_h3(repo, res)
     hookrules.rule_no_hardcoded_containers(repo, res)
